@@ -1,4 +1,6 @@
 import NdnProofs.Props.C02
+import NdnProofs.Props.C07
+import NdnProofs.Lemmas.NfdMgmt
 import NdnModel.NfdBytes
 /-! Lemmas for the byte-level half of C17: the command names and the command Interest of the forwarder
     management protocol, composed from the C08 round trip and the C01/C02 packet theorems. -/
@@ -274,5 +276,337 @@ theorem legacyCommandName_ok {H : Bytes → Bytes} {isLocal : Bool} {module comm
     simp [legacyTail]
 
 theorem be8_length (v : Nat) : (be8 v).length = 8 := rfl
+
+/-! ### the composed model: the wire of every command, and what a reply wire is taken for -/
+
+theorem encFields_noKw : encFields cpvFs.tail noKw = .ok [] := by rfl
+
+theorem enc_cpv_name (pfx : List Bytes) (h : (concatB pfx).length < 2 ^ 64) :
+    encFields cpvFs (cpvOf pfx noKw) = .ok (tlv 7 (concatB pfx)) := by
+  have h1 : enc (.name 7) (.name pfx) = .ok (tlv 7 (concatB pfx)) := by
+    simp only [enc]; unfold tlvE; rw [if_pos ⟨by decide, h⟩]
+  have h2 : encFields cpvFs.tail noKw = .ok [] := encFields_noKw
+  show encFields (Schema.name 7 :: cpvFs.tail) (Value.name pfx :: noKw) = _
+  simp only [encFields, h1, h2, bind, Except.bind, pure, Except.pure, List.append_nil]
+
+theorem ribCommandName_eq (isLocal : Bool) (v : Verb) (pfx : List Bytes) (h : (concatB pfx).length + 64 < 2 ^ 64) :
+    ribCommandName isLocal v pfx noKw =
+      .ok (commandHead isLocal ribB (verbB v) ++ [tlv 8 (tlv 104 (tlv 7 (concatB pfx)))]) := by
+  have h7 : tlNumSize 7 = 1 := by decide
+  have h104 : tlNumSize 104 = 1 := by decide
+  have c1 := tlNumSize_cases (concatB pfx).length
+  have l1 : (tlv 7 (concatB pfx)).length < 2 ^ 64 := by rw [tlv_length, h7]; omega
+  have c2 := tlNumSize_cases (tlv 7 (concatB pfx)).length
+  have l2 : (tlv 104 (tlv 7 (concatB pfx))).length < 2 ^ 64 := by
+    rw [tlv_length, h104, tlv_length, h7]; rw [tlv_length, h7] at c2; omega
+  have e1 := enc_cpv_name pfx (by omega)
+  have e2 : encFields cpFs [.model (cpvOf pfx noKw)] = .ok (tlv 104 (tlv 7 (concatB pfx))) := by
+    simp only [cpFs, encFields, enc, e1, bind, Except.bind, pure, Except.pure, List.append_nil]
+    unfold tlvE; rw [if_pos ⟨by decide, l1⟩]
+  unfold ribCommandName commandName
+  simp only [e2, bind, Except.bind, genericComp, pure, Except.pure]
+  unfold tlvE; rw [if_pos ⟨by decide, l2⟩]
+
+theorem cmdMid_enc (n32 : Nat) (h : n32 < 2 ^ 32) :
+    encFields midFs (cmdMid n32) = .ok (tlv 10 (be4 n32) ++ [12, 2, 3, 232]) ∧
+    fitsFs midFs (cmdMid n32) = true := by
+  constructor
+  · have e1 : enc (.uint 10 (some 4)) (.uint n32) = .ok (tlv 10 (be4 n32)) := by
+      simp only [enc]
+      have hw : uintWidth (some 4) n32 = 4 := rfl
+      split
+      · rename_i hc; rw [hw] at hc; omega
+      · rw [hw]
+        unfold tlvE
+        rw [if_pos ⟨by decide, by simp [beN, be4]⟩]
+        simp [beN]
+    have e2 : enc (.uint 12 none) (.uint 1000) = .ok [12, 2, 3, 232] := by rfl
+    have k1 : enc (.bool 33) .none = .ok [] := by rfl
+    have k2 : enc (.bool 18) .none = .ok [] := by rfl
+    have k3 : enc linksS .none = .ok [] := by rfl
+    have k4 : enc (.uint 34 (some 1)) .none = .ok [] := by rfl
+    simp only [midFs, cmdMid, encFields, e1, e2, k1, k2, k3, k4, bind, Except.bind, pure, Except.pure,
+      List.nil_append, List.append_nil]
+  · rfl
+
+theorem cmdMid_len (n32 : Nat) : (tlv 10 (be4 n32) ++ [12, 2, 3, 232]).length = 10 := by
+  rw [List.length_append, tlv_length]
+  simp [be4]; decide
+
+/-- size of the command name in terms of the prefix -/
+theorem cmdName_size (isLocal : Bool) (v : Verb) (pfx : List Bytes) :
+    (concatB (commandHead isLocal ribB (verbB v) ++ [tlv 8 (tlv 104 (tlv 7 (concatB pfx)))])).length
+      ≤ (concatB pfx).length + 80 := by
+  have c1 := tlNumSize_cases (concatB pfx).length
+  have c2 := tlNumSize_cases (tlv 7 (concatB pfx)).length
+  have c3 := tlNumSize_cases (tlv 104 (tlv 7 (concatB pfx))).length
+  have h7 : tlNumSize 7 = 1 := by decide
+  have h8 : tlNumSize 8 = 1 := by decide
+  have h104 : tlNumSize 104 = 1 := by decide
+  rw [C02.concatB_append]
+  have hh : (concatB (commandHead isLocal ribB (verbB v))).length ≤ 33 := by
+    cases isLocal <;> cases v <;> decide
+  simp only [List.length_append, concatB, List.length_nil, Nat.add_zero, tlv_length, h7, h8, h104] at *
+  omega
+
+/-- the inputs of a run are what the library produces: a 32-byte hash, prefixes made of well-formed components
+    (and of a size a machine can hold), a 32-bit Nonce and a 64-bit SignatureNonce per command -/
+structure Good (w : Wire) : Prop where
+  hH : ∀ x, (w.H x).length = 32
+  pfxOk : ∀ p, (w.pfxName p).all compOk = true
+  pfxSize : ∀ p, (concatB (w.pfxName p)).length < 2 ^ 62
+  n32 : ∀ k, w.nonce32 k < 2 ^ 32
+  n64 : ∀ k, w.nonce64 k < 2 ^ 64
+
+/-- the name `make_command_v2('rib', verb, face, name=prefix)` returns -/
+def ribName (isLocal : Bool) (v : Verb) (pfx : List Bytes) : List Bytes :=
+  commandHead isLocal ribB (verbB v) ++ [tlv 8 (tlv 104 (tlv 7 (concatB pfx)))]
+
+theorem fits_cpv_name (pfx : List Bytes) (h : pfx.all compOk = true) : fitsFs cpvFs (cpvOf pfx noKw) = true := by
+  have h2 : fitsFs cpvFs.tail noKw = true := by rfl
+  show fitsFs (Schema.name 7 :: cpvFs.tail) (Value.name pfx :: noKw) = true
+  simp only [fitsFs, fits, h, h2, Bool.and_self]
+
+theorem cmdWire_v2 (w : Wire) (g : Good w) (k : Nat) (v : Verb) (p ts : Nat) (hts : ts < 2 ^ 64) :
+    ∃ wire vals ptrs d, cmdWire w .v2 k v p ts = .ok wire ∧ parseInterest wire = .ok (vals, ptrs) ∧
+      vals[7]? = some (.name (ribName w.isLocal v (w.pfxName p) ++ [2 :: 32 :: d])) ∧
+      (vals.drop 8).take 6 = cmdMid (w.nonce32 k) ∧
+      vals[16]? = some (.bytes []) ∧
+      vals[17]? = some (digestSigInfo ts (w.nonce64 k)) ∧
+      paramsCheck w.H ptrs = true ∧
+      ptrs.sigValue = some (w.H (concatB ptrs.sigCovered)) ∧
+      verifyPtrs (digestScheme w.H) ptrs = true := by
+  have hsz := g.pfxSize p
+  have hn := ribCommandName_eq w.isLocal v (w.pfxName p) (by omega)
+  have hn' : commandName w.isLocal ribB (verbB v) (cpvOf (w.pfxName p) noKw) = .ok (ribName w.isLocal v (w.pfxName p)) := hn
+  obtain ⟨hname, hnd⟩ := commandName_comps hn' (by decide) (by cases v <;> decide)
+  obtain ⟨hmid, hfit⟩ := cmdMid_enc (w.nonce32 k) (g.n32 k)
+  have hsize : (concatB (ribName w.isLocal v (w.pfxName p))).length +
+      (tlv 10 (be4 (w.nonce32 k)) ++ [12, 2, 3, 232]).length < 2 ^ 63 := by
+    have := cmdName_size w.isLocal v (w.pfxName p)
+    rw [cmdMid_len]; unfold ribName; omega
+  obtain ⟨m, vals, ptrs, h1, h2, h3, h4, h5, h6, h7, h8⟩ :=
+    commandInterestV2_checks w.H g.hH _ (cmdMid (w.nonce32 k)) _ ts (w.nonce64 k) hname hnd hmid hfit hts (g.n64 k) hsize
+  refine ⟨m.wire, vals, ptrs, w.H m.digestCovered, ?_, h2, ?_, ?_, ?_, ?_, h5, h7, h8⟩
+  · have h1' : commandInterestV2 w.H (commandHead w.isLocal ribB (verbB v) ++
+        [tlv 8 (tlv 104 (tlv 7 (concatB (w.pfxName p))))]) (cmdMid (w.nonce32 k)) ts (w.nonce64 k) = .ok m := h1
+    simp only [cmdWire, hn, h1', bind, Except.bind, pure, Except.pure]
+  · rw [h4, h3]; rfl
+  · rw [h4]; rfl
+  · rw [h4]; rfl
+  · rw [h4]; rfl
+
+/-- the name the legacy `make_command('rib', verb, face, name=prefix)` returns -/
+def legacyName (H : Bytes → Bytes) (isLocal : Bool) (v : Verb) (pfx : List Bytes) (ts nonce : Nat) : List Bytes :=
+  ribName isLocal v pfx ++ legacyTail ts nonce ++
+    [tlv 8 ([23, 32] ++ H (concatB (ribName isLocal v pfx ++ legacyTail ts nonce)))]
+
+theorem legacyCommandName_eq (H : Bytes → Bytes) (isLocal : Bool) (v : Verb) (pfx : List Bytes) (ts nonce : Nat)
+    (h : (concatB pfx).length + 64 < 2 ^ 64) (hts : ts < 2 ^ 64) (hn : nonce < 2 ^ 64) :
+    legacyCommandName H isLocal ribB (verbB v) (cpvOf pfx noKw) ts nonce = .ok (legacyName H isLocal v pfx ts nonce) := by
+  have hn' : commandName isLocal ribB (verbB v) (cpvOf pfx noKw) = .ok (ribName isLocal v pfx) :=
+    ribCommandName_eq isLocal v pfx h
+  unfold legacyCommandName
+  simp only [hn', bind, Except.bind]
+  rw [if_neg (by omega)]
+  simp only [legacySigInfo_enc]
+  rw [if_neg (by decide)]
+  simp [legacyName, legacyTail, pure, Except.pure]
+
+theorem legacyName_comps (H : Bytes → Bytes) (hH : ∀ x, (H x).length = 32) (isLocal : Bool) (v : Verb)
+    (pfx : List Bytes) (ts nonce : Nat) (h : (concatB pfx).length + 64 < 2 ^ 64) :
+    (legacyName H isLocal v pfx ts nonce).all compOk = true ∧
+    ∀ c ∈ legacyName H isLocal v pfx ts nonce, isDigestComp c = false := by
+  have hn' : commandName isLocal ribB (verbB v) (cpvOf pfx noKw) = .ok (ribName isLocal v pfx) :=
+    ribCommandName_eq isLocal v pfx h
+  obtain ⟨h1, h2⟩ := commandName_comps hn' (by decide) (by cases v <;> decide)
+  have h8 : (8 : Nat) < 2 ^ 64 := by decide
+  have hb : ∀ x, (be8 x).length < 2 ^ 64 := fun x => by rw [be8_length]; decide
+  have hs : ([22, 3, 27, 1, 0] : Bytes).length < 2 ^ 64 := by decide
+  have hv : ∀ x : Bytes, ([23, 32] ++ H x).length < 2 ^ 64 := fun x => by simp [hH]
+  constructor
+  · simp only [legacyName, legacyTail, List.all_append, h1, List.all_cons, List.all_nil,
+      compOk_tlv 8 _ h8 (hb ts), compOk_tlv 8 _ h8 (hb nonce), compOk_tlv 8 _ h8 hs, compOk_tlv 8 _ h8 (hv _),
+      Bool.and_self]
+  · intro c hc
+    simp only [legacyName, legacyTail, List.mem_append, List.mem_cons, List.not_mem_nil, or_false] at hc
+    rcases hc with (hc | hc | hc | hc) | hc
+    · exact h2 c hc
+    · subst hc; exact isDigestComp_tlv 8 _ h8 (hb ts) (by decide)
+    · subst hc; exact isDigestComp_tlv 8 _ h8 (hb nonce) (by decide)
+    · subst hc; exact isDigestComp_tlv 8 _ h8 hs (by decide)
+    · subst hc; exact isDigestComp_tlv 8 _ h8 (hv _) (by decide)
+
+theorem legacyName_size (H : Bytes → Bytes) (hH : ∀ x, (H x).length = 32) (isLocal : Bool) (v : Verb)
+    (pfx : List Bytes) (ts nonce : Nat) :
+    (concatB (legacyName H isLocal v pfx ts nonce)).length ≤ (concatB pfx).length + 160 := by
+  have := cmdName_size isLocal v pfx
+  have h8 : tlNumSize 8 = 1 := by decide
+  unfold legacyName legacyTail
+  rw [C02.concatB_append, C02.concatB_append]
+  simp only [List.length_append, concatB, List.length_nil, Nat.add_zero, tlv_length, h8, be8_length, List.length_cons, hH]
+  have e8 : tlNumSize 8 = 1 := by decide
+  have e5 : tlNumSize 5 = 1 := by decide
+  have e34 : tlNumSize 34 = 1 := by decide
+  unfold ribName at *
+  simp only [e8, e5, e34] at *
+  omega
+
+theorem cmdWire_legacy (w : Wire) (g : Good w) (k : Nat) (v : Verb) (p ts : Nat) (hts : ts < 2 ^ 64) :
+    ∃ wire ptrs, cmdWire w .legacy k v p ts = .ok wire ∧
+      parseInterest wire = .ok (List.replicate 7 (Value.uint 0) ++
+        (Value.name (legacyName w.H w.isLocal v (w.pfxName p) ts (w.nonce64 k)) :: cmdMid (w.nonce32 k)) ++
+        List.replicate 6 Value.none, ptrs) := by
+  have hsz := g.pfxSize p
+  have hn := legacyCommandName_eq w.H w.isLocal v (w.pfxName p) ts (w.nonce64 k) (by omega) hts (g.n64 k)
+  obtain ⟨hname, hnd⟩ := legacyName_comps w.H g.hH w.isLocal v (w.pfxName p) ts (w.nonce64 k) (by omega)
+  obtain ⟨hmid, hfit⟩ := cmdMid_enc (w.nonce32 k) (g.n32 k)
+  have hl := legacyName_size w.H g.hH w.isLocal v (w.pfxName p) ts (w.nonce64 k)
+  obtain ⟨m, h1, _, h3⟩ := C01.parse_make_interest_plain w.H _ (cmdMid (w.nonce32 k)) _ hmid hname hnd hfit
+    (by rw [cmdMid_len]; omega)
+  cases hp : parseInterest m.wire with
+  | error e => rw [hp] at h3; cases h3
+  | ok r =>
+    obtain ⟨vals, ptrs⟩ := r
+    rw [hp] at h3
+    simp only [Except.map, Except.ok.injEq] at h3
+    refine ⟨m.wire, ptrs, ?_, ?_⟩
+    · simp only [cmdWire, hn, h1, bind, Except.bind, pure, Except.pure]
+    · rw [hp, ← h3]
+
+/-- reading the timestamp back from a v2 command -/
+theorem wireTs_v2 (wire : Bytes) (vals : List Value) (ptrs : Ptrs) (ts nonce : Nat)
+    (h : parseInterest wire = .ok (vals, ptrs)) (h17 : vals[17]? = some (digestSigInfo ts nonce)) :
+    wireTs .v2 wire = some ts := by
+  simp only [wireTs, h, h17, digestSigInfo]
+
+theorem legacyName_5 (H : Bytes → Bytes) (isLocal : Bool) (v : Verb) (pfx : List Bytes) (ts nonce : Nat) :
+    (legacyName H isLocal v pfx ts nonce)[5]? = some (tlv 8 (be8 ts)) := by
+  simp [legacyName, ribName, commandHead, legacyTail]
+
+theorem wireTs_legacy (wire : Bytes) (ptrs : Ptrs) (H : Bytes → Bytes) (isLocal : Bool) (v : Verb)
+    (pfx : List Bytes) (ts nonce : Nat) (mid : List Value) (hts : ts < 2 ^ 64)
+    (h : parseInterest wire = .ok (List.replicate 7 (Value.uint 0) ++
+        (Value.name (legacyName H isLocal v pfx ts nonce) :: mid) ++ List.replicate 6 Value.none, ptrs)) :
+    wireTs .legacy wire = some ts := by
+  have h7 : (List.replicate 7 (Value.uint 0) ++ (Value.name (legacyName H isLocal v pfx ts nonce) :: mid) ++
+      List.replicate 6 Value.none)[7]? = some (Value.name (legacyName H isLocal v pfx ts nonce)) := by
+    simp
+  simp only [wireTs, h, h7, legacyName_5, Option.map_some]
+  rw [compValue_tlv 8 _ (by decide) (by rw [be8_length]; decide), beVal_be8 ts (by simpa using hts)]
+
+theorem parseResponse_eq (bf : Bool) (c : Bytes) : parseResponse bf c = contentRec c >>= parseResponseRec bf := by
+  unfold parseResponse contentRec
+  cases parseAndCheckTl c 0x65 with
+  | error e => rfl
+  | ok v =>
+    simp only [bind, Except.bind]
+    cases parse crFs false v <;> rfl
+
+theorem pFs_cr : pFs crFs = true := by decide
+
+/-- whatever the Content bytes are, decoding them as a ControlResponse gives a record or one of the documented
+    decoding errors (IndexError, struct.error, ValueError, DecodeError, TypeError) -/
+theorem contentRec_doc (c : Bytes) : Doc (contentRec c) := by
+  unfold contentRec
+  apply Doc.bind (C07.parseAndCheckTl_doc _ _); intro v _
+  apply Doc.bind (C07.parse_total crFs false v pFs_cr); intro vs _
+  exact Doc.ok _
+
+/-- the Data packet a forwarder answers with: Name, no MetaInfo, the Content, SignatureInfo DigestSha256 and the
+    signature value `H` of these fields -/
+def forwarderData (H : Bytes → Bytes) (name : List Bytes) (content : Bytes) : Except PyErr Bytes := do
+  let p ← encFields [nameS, metaS, contentS, dataSigInfoS] [.name name, .none, .bytes content, .model legacySigInfo]
+  let m ← makeData name .none (.bytes content) (.model legacySigInfo) (some { reserved := 32, sig := H p })
+  pure m.wire
+
+theorem replyOfData_forwarder (H : Bytes → Bytes) (hH : ∀ x, (H x).length = 32) (name : List Bytes) (content p : Bytes)
+    (hname : name.all compOk = true)
+    (hp : encFields [nameS, metaS, contentS, dataSigInfoS] [.name name, .none, .bytes content, .model legacySigInfo] = .ok p)
+    (hsz : p.length < 2 ^ 63) :
+    forwarderData H name content = .ok (tlv 6 (p ++ tlv 23 (H p))) ∧
+    replyOfData H (tlv 6 (p ++ tlv 23 (H p))) = some (match contentRec content with
+      | .ok r => .response r.statusCode r.body.isSome true
+      | .error _ => .undecodable true) := by
+  have hw := C01.make_data_wire name .none (.bytes content) (.model legacySigInfo) { reserved := 32, sig := H p } p hp
+    (by simp [hH]) (Or.inl (by simp [hH])) (by simp only []; omega)
+  have h23 : tlNumSize 23 = 1 := by decide
+  have h32 : tlNumSize 32 = 1 := by decide
+  have hfit : fitsFs [nameS, metaS, contentS, dataSigInfoS] [.name name, .none, .bytes content, .model legacySigInfo] = true := by
+    have : fitsFs sigInfoFields legacySigInfo = true := by rfl
+    simp [fitsFs, fits, nameS, metaS, contentS, dataSigInfoS, hname, this]
+  have hpd := C02.parsed_cover_is_signed_portion_data name .none (.bytes content) (.model legacySigInfo) (H p) p hp hfit
+    (by simp only [List.length_append, tlv_length, hH, h23, h32]; omega) (by rw [hH]; decide)
+  constructor
+  · unfold forwarderData
+    simp only [hp, hw, bind, Except.bind, pure, Except.pure]
+  · unfold replyOfData
+    rw [hpd]
+    have hd : digestSigOk H (List.replicate 5 (Value.uint 0) ++ [.name name, .none, .bytes content, .model legacySigInfo, .bytes (H p)])
+        { sigCovered := [p], sigValue := some (H p), digestCovered := [], digestValue := none } = true := by
+      have hne : (H p).isEmpty = false := by
+        cases h : H p with
+        | nil => have := hH p; rw [h] at this; cases this
+        | cons a b => rfl
+      simp [digestSigOk, legacySigInfo, concatB, hne]
+    simp only [hd]
+    rfl
+
+
+/-- every command is emitted, and the timestamp read back from its wire is the timestamp that was signed -/
+theorem cmdWire_ts (w : Wire) (g : Good w) (fe : FrontEnd) (k : Nat) (v : Verb) (p ts : Nat) (hts : ts < 2 ^ 64) :
+    ∃ wire, cmdWire w fe k v p ts = .ok wire ∧ wireTs fe wire = some ts := by
+  cases fe with
+  | v2 =>
+    obtain ⟨wire, vals, ptrs, d, h1, h2, _, _, _, h17, _⟩ := cmdWire_v2 w g k v p ts hts
+    exact ⟨wire, h1, wireTs_v2 wire vals ptrs ts _ h2 h17⟩
+  | legacy =>
+    obtain ⟨wire, ptrs, h1, h2⟩ := cmdWire_legacy w g k v p ts hts
+    exact ⟨wire, h1, wireTs_legacy wire ptrs _ _ _ _ ts _ _ hts h2⟩
+
+theorem tsOf_cmdsOf (o : List Out) : tsOf o = (cmdsOf o).map (·.2) := by
+  induction o with
+  | nil => rfl
+  | cons x t ih => cases x <;> simp [tsOf, cmdsOf, ih]
+
+/-- the i-th wire is the wire of the i-th command -/
+theorem wiresFrom_getElem (w : Wire) (fe : FrontEnd) (o : List Out) (k i : Nat) (r : Req) (ts : Nat)
+    (h : (cmdsOf o)[i]? = some (r, ts)) :
+    (wiresFrom w fe k o)[i]? = some (cmdWire w fe (k + i) r.verb r.pfx ts) := by
+  induction o generalizing k i with
+  | nil => simp [cmdsOf] at h
+  | cons x t ih =>
+    cases x with
+    | cmd r' ts' =>
+      cases i with
+      | zero =>
+        simp only [cmdsOf, List.getElem?_cons_zero, Option.some.injEq, Prod.mk.injEq] at h
+        obtain ⟨rfl, rfl⟩ := h
+        simp [wiresFrom]
+      | succ j =>
+        simp only [cmdsOf, List.getElem?_cons_succ] at h
+        have := ih (k + 1) j h
+        simp only [wiresFrom, List.getElem?_cons_succ]
+        rw [this]; congr 2; omega
+    | ret r' res => exact ih k i h
+    | connected => exact ih k i h
+    | unmodelled => exact ih k i h
+
+/-- all commands of a trace are emitted, and reading the timestamps back from the wires gives the signed
+    timestamps in emission order -/
+theorem wiresFrom_ts (w : Wire) (g : Good w) (fe : FrontEnd) (o : List Out) (k : Nat)
+    (hts : ∀ ts ∈ tsOf o, ts < 2 ^ 64) :
+    ∃ ws : List Bytes, wiresFrom w fe k o = ws.map Except.ok ∧ ws.map (wireTs fe) = (tsOf o).map some := by
+  induction o generalizing k with
+  | nil => exact ⟨[], rfl, rfl⟩
+  | cons x t ih =>
+    cases x with
+    | cmd r ts =>
+      obtain ⟨wire, h1, h2⟩ := cmdWire_ts w g fe k r.verb r.pfx ts (hts ts (by simp [tsOf]))
+      obtain ⟨ws, h3, h4⟩ := ih (k + 1) (fun t' ht' => hts t' (by simp [tsOf, ht']))
+      exact ⟨wire :: ws, by simp [wiresFrom, h1, h3], by simp [tsOf, h2, h4]⟩
+    | ret r res => exact ih k (fun t' ht' => hts t' (by simpa [tsOf] using ht'))
+    | connected => exact ih k (fun t' ht' => hts t' (by simpa [tsOf] using ht'))
+    | unmodelled => exact ih k (fun t' ht' => hts t' (by simpa [tsOf] using ht'))
 
 end Ndn.NfdBytes
